@@ -27,12 +27,22 @@ pub enum Op {
     DrBit(u8, u8, bool),
     /// advance the time base (the state counter is 64 bits wide: increments reach past 2^32)
     Tick(u64),
+    /// one MOV.W Rs,@aa:16 over the DRs of ports p (odd) and p+1: a 16-bit access is the composition of two byte
+    /// accesses, each port latches its own byte
+    DrWord(u8, u8, u8),
 }
 impl Op {
     fn port(&self) -> Option<u8> {
         match *self {
-            Op::Ddr(p, _) | Op::Dr(p, _) | Op::Pins(p, _) | Op::PinsLine(p, _) | Op::DrMov(p, _) | Op::DrBit(p, _, _) => Some(p),
+            Op::Ddr(p, _) | Op::Dr(p, _) | Op::Pins(p, _) | Op::PinsLine(p, _) | Op::DrMov(p, _) | Op::DrBit(p, _, _) | Op::DrWord(p, _, _) => Some(p),
             Op::Tick(_) => None,
+        }
+    }
+    /// is a message about port `q` a possible consequence of this op?
+    fn concerns(&self, q: u8) -> bool {
+        match *self {
+            Op::DrWord(p, _, _) => q == p || q == p + 1,
+            _ => self.port() == Some(q),
         }
     }
 }
@@ -143,6 +153,18 @@ fn execute(emu: &mut Emu, ops: &[Op]) -> Result<Vec<([u8; 11], Vec<String>)>, St
                 emu.cpu.bus.cpu_state_sum = emu.cpu.bus.cpu_state_sum.wrapping_add(n as usize);
                 Ok(())
             }
+            Op::DrWord(p, hi, lo) => {
+                let insn = Insn::Store { sz: Sz::W, s: 0, ea: Ea::A16(dr_addr(p) as u16) };
+                for (k, b) in encode(&insn).iter().enumerate() {
+                    raw_set(&mut emu.cpu.bus, CODE + k as u32, *b);
+                }
+                emu.cpu.er = [((hi as u32) << 8) | lo as u32, 0, 0, 0, 0, 0, 0, 0xffe000];
+                emu.set_pc(CODE);
+                match emu.step() {
+                    EmuResult::Ok(_) => Ok(()),
+                    other => Err(format!("{:?}", other)),
+                }
+            }
         };
         if let Err(e) = r {
             return Err(format!("op {} {:?} failed: {}", i, op, e));
@@ -178,6 +200,10 @@ fn check_pure(ops: &[Op], obs: &[([u8; 11], Vec<String>)]) -> Result<(), String>
                 m.latch = if set { cur | (1 << (b & 7)) } else { cur & !(1 << (b & 7)) };
             }
             Op::Tick(n) => time = time.wrapping_add(n),
+            Op::DrWord(p, hi, lo) => {
+                ports[p as usize - 1].latch = hi;
+                ports[p as usize].latch = lo;
+            }
         }
         let (reads, msgs) = &obs[i];
         for p in 0..11 {
@@ -195,7 +221,7 @@ fn check_pure(ops: &[Op], obs: &[([u8; 11], Vec<String>)]) -> Result<(), String>
                 }
                 continue;
             };
-            if Some(mp) != op.port() {
+            if !op.concerns(mp) {
                 return Err(format!("after op {} {:?}: message {:?} names another port", i, op, m));
             }
             if mt < last_stamp || mt != time {
@@ -249,6 +275,10 @@ fn check_merged(ops: &[Op], obs: &[([u8; 11], Vec<String>)]) -> bool {
                 m.m = (m.m & m.ddr) | (!m.ddr & v);
             }
             Op::Tick(n) => time = time.wrapping_add(n),
+            Op::DrWord(p, hi, lo) => {
+                wr_dr(&mut ports[p as usize - 1], p, hi, &mut exp);
+                wr_dr(&mut ports[p as usize], p + 1, lo, &mut exp);
+            }
         }
         let (reads, msgs) = &obs[i];
         for p in 0..11 {
@@ -280,7 +310,12 @@ fn build_history(e: &mut Ent) -> Vec<Op> {
     for _ in 0..n {
         let p = if e.chance(1, 2) { p1 } else { p2 };
         let v = values(e);
-        ops.push(match e.below(12) {
+        ops.push(match e.below(13) {
+            12 => {
+                // the pair (p, p+1) with p odd: the DR of an odd port sits at an even address
+                let q = if p >= 10 { 9 } else { p | 1 };
+                Op::DrWord(q, v, values(e))
+            }
             0 | 1 | 2 => Op::Ddr(p, v),
             3 | 4 | 5 => Op::Dr(p, v),
             6 | 7 => Op::Pins(p, v),
@@ -313,6 +348,10 @@ fn interesting(ops: &[Op]) -> (bool, bool) {
     for op in ops {
         match *op {
             Op::Dr(p, _) | Op::DrMov(p, _) | Op::DrBit(p, _, _) => written_while_input[p as usize - 1] |= !ddr[p as usize - 1],
+            Op::DrWord(p, _, _) => {
+                written_while_input[p as usize - 1] |= !ddr[p as usize - 1];
+                written_while_input[p as usize] |= !ddr[p as usize];
+            }
             Op::Ddr(p, v) => {
                 if v & !ddr[p as usize - 1] & written_while_input[p as usize - 1] != 0 {
                     a = true;
@@ -335,7 +374,7 @@ fn ops_json(ops: &[Op]) -> Value {
     json!({"kind": "port-history", "ops": ops.iter().map(|o| match *o {
         Op::Ddr(p, v) => json!(["ddr", p, v]), Op::Dr(p, v) => json!(["dr", p, v]), Op::Pins(p, v) => json!(["pins", p, v]),
         Op::PinsLine(p, v) => json!(["pinsline", p, v]), Op::DrMov(p, v) => json!(["drmov", p, v]),
-        Op::DrBit(p, b, s) => json!(["drbit", p, b, s]), Op::Tick(n) => json!(["tick", n]) }).collect::<Vec<_>>()})
+        Op::DrBit(p, b, s) => json!(["drbit", p, b, s]), Op::Tick(n) => json!(["tick", n]), Op::DrWord(p, h, l) => json!(["drword", p, h, l]) }).collect::<Vec<_>>()})
 }
 fn ops_from_json(v: &Value) -> Option<Vec<Op>> {
     Some(
@@ -352,6 +391,7 @@ fn ops_from_json(v: &Value) -> Option<Vec<Op>> {
                     "pins" => Op::Pins(a as u8, b as u8),
                     "pinsline" => Op::PinsLine(a as u8, b as u8),
                     "drmov" => Op::DrMov(a as u8, b as u8),
+                    "drword" => Op::DrWord(a as u8, b as u8, o.get(3)?.as_u64()? as u8),
                     "drbit" => Op::DrBit(a as u8, b as u8, o.get(3)?.as_bool()?),
                     _ => Op::Tick(a),
                 })
